@@ -1142,6 +1142,17 @@ afterCall:
 		late := &wrapperspb.BytesValue{}
 		lerr := ch.Invoke(context.Background(), "/a/u", &wrapperspb.BytesValue{Value: []byte{9}}, late)
 		verifAssert(status.Code(lerr) == codes.Unavailable, "C10.e2e-rpc-started-after-shutdown-is-refused-with-unavailable")
+		// a slower caller: the refusal is back before it sends its request; whatever operation reports an
+		// error to it reports the refusal, and the terminal result is Unavailable
+		if lst, err := ch.NewStream(context.Background(), &grpc.StreamDesc{ClientStreams: true, ServerStreams: true}, "/a/s"); err == nil {
+			verifDrain()
+			serr := lst.SendMsg(&wrapperspb.BytesValue{Value: []byte{9}})
+			verifAssert(serr == nil || serr == io.EOF || status.Code(serr) == codes.Unavailable, "C10.e2e-a-send-on-a-refused-rpc-does-not-report-something-else")
+			_ = lst.CloseSend()
+			verifAssert(status.Code(lst.RecvMsg(&wrapperspb.BytesValue{})) == codes.Unavailable, "C10.e2e-slow-rpc-started-after-shutdown-is-refused-with-unavailable")
+		} else {
+			verifAssert(status.Code(err) == codes.Unavailable, "C10.e2e-rpc-started-after-shutdown-is-refused-with-unavailable")
+		}
 		verifAssert(len(app.calls) == 1, "C10.e2e-refused-rpc-reaches-no-handler")
 		verifDrain()
 		verifAssert(c.Err() == nil && vChanOpenRO(c.Done()), "C10.e2e-the-tunnel-stays-up-during-graceful-shutdown")
